@@ -44,13 +44,16 @@ type Expect struct {
 		Effect string   `json:"effect"` // regexp on callee
 		Nth    int      `json:"nth"`    // 0 = every occurrence, k = k-th occurrence
 		Guards []string `json:"guards"` // each: regexp that must match at least one dominating guard
-		Why    string   `json:"why"`
+		// if set: EVERY guard / enclosing condition that dominates the effect must match one of these regexps — the effect
+		// may not come to depend on anything else (e.g. a hook call that becomes conditional on a method name)
+		Only []string `json:"only"`
+		Why  string   `json:"why"`
 	} `json:"requires"`
 	// effects that must exist at all (so that deleting the effect is noticed)
 	MustHave []string `json:"must_have"`
 }
 
-var effectRe = regexp.MustCompile(`(^|\.)(Set[A-Z]\w*|set[A-Z]\w*|delete[A-Z]\w*|Delete[A-Z]\w*|CallPacket|CallEVM\w*|WriteAcknowledgement|write|Mint\w*|Burn\w*|Send\w*Coins\w*|SendPacket|RecvPacket|AcknowledgePacket|UpdateClient|CreateClient|UpgradeClient|ToggleClient|RegisterRelayers|Initialize|UpgradeState|CheckHeaderAndUpdateState|ConvertCoin\w*|Execute\w*|Route|handler|Validate|ValidateBasic)$`)
+var effectRe = regexp.MustCompile(`(^|\.)(Set[A-Z]\w*|set[A-Z]\w*|delete[A-Z]\w*|Delete[A-Z]\w*|CallPacket|CallEVM\w*|WriteAcknowledgement|write|Mint\w*|Burn\w*|Send\w*Coins\w*|SendPacket|RecvPacket|AcknowledgePacket|UpdateClient|CreateClient|UpgradeClient|ToggleClient|RegisterRelayers|Initialize|UpgradeState|CheckHeaderAndUpdateState|ConvertCoin\w*|Execute\w*|Route|handler|Validate|ValidateBasic|PostTxProcessing)$`)
 
 func src(fset *token.FileSet, n ast.Node) string {
 	var b bytes.Buffer
@@ -293,6 +296,21 @@ func main() {
 					continue
 				}
 				matched = true
+				if len(rq.Only) > 0 {
+					for _, g := range e.Guards {
+						ok := false
+						for _, opat := range rq.Only {
+							if regexp.MustCompile(opat).MatchString(g) {
+								ok = true
+							}
+						}
+						if !ok {
+							fmt.Printf("BROKEN %s %s: effect %s (#%d) now also depends on %q, which is none of the conditions it may depend on (%s)\n",
+								ex.File, ex.Func, e.Call, k, g, rq.Why)
+							bad++
+						}
+					}
+				}
 				for _, gpat := range rq.Guards {
 					gre := regexp.MustCompile(gpat)
 					ok := false
